@@ -62,7 +62,10 @@ def c18_jobs(tier):
 def c16_jobs(tier):
     return [sim("c16-crashpoints", "c16", require_counters=["abandoned_mid_flight", "abandoned_with_full_mailbox_seen", "dropped_while_parked", "names_reused_after_abandonment", "retried_deletes_answered"]),
             # an abandoned DeleteSubscription followed at once by a create of the same name, with the push loop running
-            sim("c16-lifecycle", "c14r", require_counters=["recreated_behind_an_abandoned_delete"], require_nontrivial=False)]
+            sim("c16-lifecycle", "c14r", require_counters=["recreated_behind_an_abandoned_delete"], require_nontrivial=False),
+            # pages of 1000-2000 messages handed to a consumer that never answers, other requests arriving
+            # at the subscription in every millisecond in which the leases run out: all of them come back
+            sim("c16-mass-expiry", "c04", params={"only_mass": 1}, require_counters=["lookups_while_pages_expire", "whole_pages_redelivered_after_one_instant_expiry"], require_nontrivial=False)]
 
 
 def c14_jobs(tier):
